@@ -13,6 +13,8 @@ mod c01x;
 mod c02;
 mod c04;
 mod c05x;
+mod c13;
+mod c09;
 mod c06;
 mod c06x;
 mod histprops;
@@ -92,6 +94,8 @@ fn main() {
         "C03" => histprops::c03(&cfg),
         "C04" => c04::run(&cfg),
         "C05" => histprops::c05(&cfg),
+        "C09" => c09::run(&cfg),
+        "C13" => c13::run(&cfg),
         "C06" => c06::run(&cfg),
         _ => {
             eprintln!("no check for {prop}");
